@@ -178,6 +178,10 @@ pub struct CaPlan {
 	/// attempt left the validation in flight) while the authorization is still pending
 	#[serde(default)]
 	pub chall_processing: Vec<String>,
+	/// how the order object describes the identifiers: "" as requested | "upper": DNS names in upper case | "reversed": in reverse order
+	/// (both legal: names are case-insensitive, the list is a set)
+	#[serde(default)]
+	pub order_echo: String,
 }
 
 fn default_true() -> bool {
@@ -208,6 +212,7 @@ impl Default for CaPlan {
 			validate: None,
 			retry_after: None,
 			chall_processing: vec![],
+			order_echo: String::new(),
 		}
 	}
 }
